@@ -74,10 +74,21 @@ impl SwiftField for Field11R {
         // Parse optional input sequence number (6!n)
         let input_sequence_number =
             if remaining.len() >= 6 && remaining[..6].chars().all(|c| c.is_ascii_digit()) {
-                Some(remaining[..6].to_string())
+                let sequence = Some(remaining[..6].to_string());
+                remaining = &remaining[6..];
+                sequence
             } else {
                 None
             };
+
+        if !remaining.is_empty() {
+            return Err(ParseError::InvalidFormat {
+                message: format!(
+                    "Field 11R has unexpected content after its components: '{}'",
+                    remaining
+                ),
+            });
+        }
 
         Ok(Field11R {
             message_type,
@@ -200,10 +211,21 @@ impl SwiftField for Field11S {
         // Parse optional input sequence number (6!n)
         let input_sequence_number =
             if remaining.len() >= 6 && remaining[..6].chars().all(|c| c.is_ascii_digit()) {
-                Some(remaining[..6].to_string())
+                let sequence = Some(remaining[..6].to_string());
+                remaining = &remaining[6..];
+                sequence
             } else {
                 None
             };
+
+        if !remaining.is_empty() {
+            return Err(ParseError::InvalidFormat {
+                message: format!(
+                    "Field 11S has unexpected content after its components: '{}'",
+                    remaining
+                ),
+            });
+        }
 
         Ok(Field11S {
             message_type,
